@@ -23,6 +23,7 @@ def build():
                                           'earlyStopPercentage', 'maxDepth', 'maxNodes'])
     U.struct(S_H, 'Search', only=['tStart', 'minTimeMillis', 'maxTimeMillis', 'earlyStopPercentage'])
     U.raw('''
+int in_wTime, in_bTime, in_wInc, in_bInc, in_movesToGo, in_depth, in_nodes, in_mate, in_moveTime; _Bool in_infinite, in_whiteMove;   /* input mirrors for the native replay */
 _Bool ghost_opt_ponder;        /* UCI option Ponder (UciParams::ponder->getBoolPar()) */
 _Bool ghost_sc_nonnull;        /* stands for the shared_ptr `sc` being non-null */
 int ghost_nmoves;              /* moves->size : number of legal root moves after searchmoves filtering */
@@ -61,7 +62,10 @@ _PARAMS_OK = 'IN_RANGE(timeMaxRemainingMoves) && IN_RANGE(bufferTime) && IN_RANG
 CONTRACTS = {
     'EngineControl_computeTimeLimit': {
         'requires': ['__CPROVER_is_fresh(self, sizeof(*self))', '__CPROVER_is_fresh(sPar, sizeof(*sPar))',
-                     'SPAR_DOMAIN(sPar)', _PARAMS_OK],
+                     'SPAR_DOMAIN(sPar)', _PARAMS_OK,
+                     # input mirrors (ghost): make the counterexample readable from the trace
+                     'in_wTime == sPar->wTime && in_bTime == sPar->bTime && in_wInc == sPar->wInc && in_bInc == sPar->bInc && in_movesToGo == sPar->movesToGo && in_depth == sPar->depth && in_nodes == sPar->nodes && in_mate == sPar->mate && in_moveTime == sPar->moveTime && in_infinite == sPar->infinite && in_whiteMove == self->pos.whiteMove',
+                     '(sPar->infinite == 0 || sPar->infinite == 1) && (self->pos.whiteMove == 0 || self->pos.whiteMove == 1)'],
         'assigns': ['self->minTimeLimit, self->maxTimeLimit, self->earlyStopPercentage, self->maxDepth, self->maxNodes'],
         'ensures': [
             # fixed move time: both limits are exactly that time
@@ -120,6 +124,8 @@ HARNESS = r'''
 int nondet_int(void);
 static void havoc_globals(void) {
     timeMaxRemainingMoves = nondet_int(); bufferTime = nondet_int(); maxTimeUsage = nondet_int(); timePonderHitRate = nondet_int();
+    in_wTime = nondet_int(); in_bTime = nondet_int(); in_wInc = nondet_int(); in_bInc = nondet_int(); in_movesToGo = nondet_int(); in_depth = nondet_int(); in_nodes = nondet_int();
+    in_mate = nondet_int(); in_moveTime = nondet_int(); in_infinite = (nondet_int() != 0); in_whiteMove = (nondet_int() != 0);
     minTimeUsage = nondet_int(); ghost_opt_ponder = (nondet_int() != 0); ghost_sc_nonnull = (nondet_int() != 0); ghost_nmoves = nondet_int();
     ghost_last_min = nondet_int(); ghost_last_max = nondet_int(); ghost_last_esp = nondet_int(); ghost_delivered = (nondet_int() != 0);
 }
